@@ -17,7 +17,7 @@ if ! git apply "$seed/patch.diff" 2>/tmp/seedchk.$$.err; then
   fi
 fi
 rm -f /tmp/seedchk.$$.err
-echo "APPLY: ok ($(git diff --stat | tail -1))"
+echo "APPLY: ok ($(git diff HEAD --stat | tail -1))"
 if go build ./... >/dev/null 2>&1 && go test -vet=off -count=1 ./... >/tmp/seedchk.$$.suite 2>&1; then echo "SUITE with change: PASS"; else echo "SUITE with change: FAIL"; grep -m3 -- "--- FAIL\|FAIL" /tmp/seedchk.$$.suite; fi
 rm -f /tmp/seedchk.$$.suite
 demos=$(ls "$seed"/*_test.go 2>/dev/null)
@@ -33,7 +33,7 @@ for p in $props; do
   [ $rc -eq 2 ] && tail -3 /tmp/seedchk.$$.cerr
 done
 rm -f /tmp/seedchk.$$.cerr
-git checkout -q -- . ; git clean -fdq
+git reset -q --hard HEAD; git clean -fdq
 for d in $demos; do cp "$d" "$wt/zz_seed_$(basename $d)"; done
 if go test -vet=off -count=1 -run 'Demo|Seed|C[0-9][0-9]' . >/tmp/seedchk.$$.demo 2>&1; then echo "DEMO without change: PASS (expected)"; else echo "DEMO without change: FAIL (unexpected) $(grep -m1 -- '--- FAIL' /tmp/seedchk.$$.demo)"; fi
 rm -f /tmp/seedchk.$$.demo
